@@ -176,4 +176,22 @@ def check_kernel(contract, cfgname, D, P, shape, rng, cell0=None, scal=None, dty
             if a in pre and not numpy.array_equal(pre[a], post[a], equal_nan=True):
                 return n, {'function': contract.qual, 'cfg': cfgname, 'D': D, 'P': P, 'shape': list(shape), 'array': a, 'observed': 'operand modified', 'expected': 'unchanged',
                            'inputs_full': {k: v.tolist() for k, v in pre.items()} if dtype is not complex else {}}
+    # frames once more on GENERIC floating-point values: the generated coefficients are dyadic rationals (exact arithmetic for the value
+    # comparison), on which an operand that is scaled in place and scaled back comes out bit-identical
+    if cell0 is None and dtype is float and contract._frame_params(cfgname):
+        try:
+            arrs2 = make_inputs(contract, cfgname, D, P, shape, rng, None, dtype, layout_rng=_random.Random(rng.random()))
+            seen = set()
+            for v in arrs2.values():
+                if isinstance(v, numpy.ndarray) and v.dtype.kind == 'f':
+                    b = v
+                    while getattr(b, 'base', None) is not None: b = b.base
+                    if id(b) in seen: continue
+                    seen.add(id(b)); b *= (1.0 + numpy.array([rng.random() for _ in range(b.size)]).reshape(b.shape) / 9.0)
+            post2, pre2 = call(contract, cfgname, arrs2, scal)
+            for a in contract._frame_params(cfgname):
+                if a in pre2 and not numpy.array_equal(pre2[a], post2[a], equal_nan=True):
+                    return n, {'function': contract.qual, 'cfg': cfgname, 'D': D, 'P': P, 'shape': list(shape), 'array': a, 'observed': 'operand modified (generic floating-point values, max change %.3g)' % float(numpy.nanmax(numpy.abs(pre2[a] - post2[a]))),
+                               'expected': 'unchanged', 'inputs_full': {k: v.tolist() for k, v in pre2.items()}}
+        except (ZeroDivisionError, ValueError, OverflowError, FloatingPointError): pass
     return n, None
